@@ -65,6 +65,11 @@ CHECKS = {
         text="All histories of SetKeyword/ClearKeyword/PutProperty/DelProperty/ToggleRequired/Validate up to length 2 (all) and 3 (validate;reconfigure;validate) plus simulated histories of length 7-10, on an element, a class and a subclass.",
         note="Fresh objects are rebuilt through the public DSL from the attribute projection.",
         ref="5/C13"),
+    "C14": dict(
+        technique="TLA+ interleaving semantics of access programs (Threads.tla): programs generated from the bind protocol (BindProtocol.tla) and programs recorded from the real code by an access monitor; TLC exhaustive over all interleavings of 2-3 calls, candidates exported with their path (TLCExt!Trace) and replayed on real threads through a gate; sampled TLC schedules, pre-emption sweeps at every monitored access / library function entry, free-running threads; every differing observation adjudicated by TLC trace validation against R_C14",
+        text="12 element trees (shared sub-elements and properties, model classes with renamed/required/pattern properties, arrays of objects, compositions over classes, container defaults, undeclared keys, formats) x 2-3 threads x accepted/rejected payloads incl. payloads sharing sub-objects, cold and warm trees: TLC explores every interleaving of the recorded access programs (projected on written locations) and of the abstract bind protocol; exhaustive within these bounds, real-thread replays sampled beyond (quick ~6 000, thorough ~90 000 runs). Each run includes a positive control that must be rejected.",
+        note="A5: interleavings at the granularity of monitored accesses to pre-existing objects under the GIL; C-level caches and reads of class attributes through model instances are not monitored. The tree clause tolerates states a sequential run of the same calls also leaves (C08's matter).",
+        ref="5/C14"),
     "C15": dict(
         technique="Lifecycle.tla Merge (ObjectMeta.__new__) and ParentIsolated action property checked by TLC; real subclass D(C) compared with the spec's merge, with a flat class, and parent observables compared around every child operation by Trace_Heap",
         text="Subclass with overridden keyword, overridden and added properties; every child operation (define, validate, keyword reassignment, property add/replace/remove, in-place mutation of an inherited property) must leave the parent's projection, verdicts and JSON unchanged; child == flat merged class in verdicts and JSON; instances are instances of the parent.",
